@@ -640,25 +640,25 @@ func checkC20(tier string) int {
 		"distinct_nontrivial": int(shp) + len(shapes),
 		"rule": "component level: one evaluation = one rapid-generated history (<= 30 operations: insert / contains / search / copy) on alias_trie.Trie[*token.Token,*int] with the parser's real tokenEqual/tokenLess, checked against a list model after every operation; distinct = distinct final key populations. " +
 			"system level: one evaluation = one Parse of a generated module set (several overloads of one alias pattern over parameter types that print alike) under one import/declaration/map-iteration order; distinct = distinct (set description, outcome)",
-		"samples":                        samples,
-		"component_histories":            int(hist),
-		"component_operations":           int(opsN),
-		"component_distinct_populations": int(shp),
-		"vocabulary_tokens":              stats["vocabulary"],
+		"samples":                            samples,
+		"component_histories":                int(hist),
+		"component_operations":               int(opsN),
+		"component_distinct_populations":     int(shp),
+		"vocabulary_tokens":                  stats["vocabulary"],
 		"vocabulary_unordered_unequal_pairs": stats["unordered_unequal_pairs"],
-		"system_sets":                    nSets,
-		"system_calls":                   sysCalls,
-		"system_sets_with_duplicate":     dupSets,
-		"system_sets_without_duplicate":  okSets,
-		"runs_per_hour":                  perHour(int(hist), wallI) + perHour(sysCalls, wallII),
-		"seeds_per_hour":                 perHour(1, time.Since(startT)),
-		"simulated_time_s":               0,
-		"simulated_time_note":            "no clock is involved; the explored dimension is the order of operations reaching the alias store",
-		"event_log_sha256":               hex.EncodeToString(evHash.Sum(nil)),
-		"violation_groups":               groups,
-		"components_real":                []string{"src/parser/alias_trie", "src/parser/ordered_map", "parser.tokenEqual / parser.tokenLess (exported by an overlay-added file)", "whole frontend (system level)"},
-		"components_simulated":           []string{"the history of operations (rapid state machine)", "Go map iteration order (system level)"},
-		"exhaustive":                     false,
+		"system_sets":                        nSets,
+		"system_calls":                       sysCalls,
+		"system_sets_with_duplicate":         dupSets,
+		"system_sets_without_duplicate":      okSets,
+		"runs_per_hour":                      perHour(int(hist), wallI) + perHour(sysCalls, wallII),
+		"seeds_per_hour":                     perHour(1, time.Since(startT)),
+		"simulated_time_s":                   0,
+		"simulated_time_note":                "no clock is involved; the explored dimension is the order of operations reaching the alias store",
+		"event_log_sha256":                   hex.EncodeToString(evHash.Sum(nil)),
+		"violation_groups":                   groups,
+		"components_real":                    []string{"src/parser/alias_trie", "src/parser/ordered_map", "parser.tokenEqual / parser.tokenLess (exported by an overlay-added file)", "whole frontend (system level)"},
+		"components_simulated":               []string{"the history of operations (rapid state machine)", "Go map iteration order (system level)"},
+		"exhaustive":                         false,
 	}
 	ev.Assumptions = []string{"the reference model is a plain list with key equality = pairwise tokenEqual", "rapid v1.3.0 is the sole source of choice at component level (-rapid.seed = VERIF_SEED)"}
 	writeEvidence(ev)
